@@ -36,6 +36,15 @@ def container(kind, cores):
         return range(cores[0], cores[-1] + 1)
     if kind == "range":
         return tuple(cores)
+    # one-shot iterables (flood_fill_aplx only: load_application takes len() of the collection)
+    if kind == "generator":
+        return (p for p in cores)
+    if kind == "iter":
+        return iter(cores)
+    if kind == "map":
+        return map(int, cores)
+    if kind == "filter":
+        return filter(lambda p: True, cores)
     return set(cores)
 
 
@@ -54,13 +63,26 @@ def run_case(c):
         index = {p: i for i, p in enumerate(paths)}
         mc = MachineController("simulated-machine")
         out = []
+        saved = []                                         # the map objects handed to each call
         for call in c["calls"]:
             for b, data in call.get("rewrite") or []:      # the file is rebuilt before this call
                 with open(paths[b], "wb") as f:
                     f.write(bytes(bytearray(data)))
-            amap = {}
-            for b, targets in call["map"]:
-                amap[paths[b]] = {(x, y): container(call.get("container"), cores) for x, y, cores in targets}
+            for _ in range(call.get("seq_advance") or 0):  # a long-lived connection: packets sent earlier
+                next(mc.connections[None].seq)
+            if call.get("reuse_of") is not None:
+                # the very same dict / set objects as an earlier call, changed in place
+                amap = saved[call["reuse_of"]]
+                for b, targets in call["map"]:
+                    for x, y, cores in targets:
+                        s = amap[paths[b]][(x, y)]
+                        s.intersection_update(cores)
+                        s.update(cores)
+            else:
+                amap = {}
+                for b, targets in call["map"]:
+                    amap[paths[b]] = {(x, y): container(call.get("container"), cores) for x, y, cores in targets}
+            saved.append(amap)
             kwargs = {}
             for k in ("app_id", "wait", "n_tries", "use_count"):
                 if call.get(k) is not None:
@@ -70,20 +92,44 @@ def run_case(c):
             if call.get("fn") == "fill":
                 kwargs.pop("n_tries", None)
                 kwargs.pop("use_count", None)
-            try:
+
+            def invoke(**kw):
                 if call.get("form") == "two" and len(amap) == 1:
                     (path, targets), = amap.items()
-                    fn(path, targets, **kwargs)
+                    fn(path, targets, **kw)
                 else:
-                    fn(amap, **kwargs)
+                    fn(amap, **kw)
+            msg = None
+            try:
+                via = call.get("via")
+                if via in ("ctx", "ctx_update"):
+                    # app_id / wait come from the context stack; `fast` is a context object created BEFORE the
+                    # blocks it is entered in
+                    fast = mc(app_start_delay=0)
+                    ctx = {k: kwargs.pop(k) for k in ("app_id", "wait") if k in kwargs}
+                    if via == "ctx":
+                        with mc(**ctx):
+                            with fast:
+                                invoke(**kwargs)
+                    else:
+                        with mc(app_id=(ctx["app_id"] + 1) % 256):
+                            mc.update_current_context(**ctx)
+                            with fast:
+                                invoke(**kwargs)
+                else:
+                    invoke(**kwargs)
                 res = ["ok"]
             except SpiNNakerLoadingError as e:
                 unl = e.app_map if hasattr(e, "app_map") else e.args[0]
                 res = ["loaderr", [[index.get(path, -1), [[x, y, sorted(cores)] for (x, y), cores in ts.items()]]
                                    for path, ts in unl.items()]]
+                try:
+                    msg = str(e)
+                except Exception as e2:        # noqa
+                    msg = "<str raised %s>" % type(e2).__name__
             except Exception as e:        # noqa
                 res = ["other", type(e).__name__]
-            out.append(dict(result=res, trace=machine.log[n0:], fills=machine.fill_log[f0:],
+            out.append(dict(result=res, message=msg, trace=machine.log[n0:], fills=machine.fill_log[f0:],
                             state=machine.snapshot(), nn_id=mc._nn_id))
         return out
     finally:
